@@ -399,6 +399,7 @@ class Exec:
         s.stack = []
         s.float_defs = {}
         s.side = {}             # harness scratch
+        s.entry_steps = []
         s.unordered = set()
 
     def note_unordered(s, ty):
@@ -578,8 +579,8 @@ class Exec:
         for p in path:
             if isinstance(p, int):
                 if isinstance(v, Agg): v = v.fields[p]
-                elif isinstance(v, Ptr) and p == 0:
-                    pass  # Box/Unique/NonNull wrappers are transparent
+                elif isinstance(v, (Ptr, VecV)) or v is None:
+                    pass  # Box/Unique/NonNull/MaybeUninit wrappers are transparent
                 else: raise Unsupported('field %d of %r' % (p, v))
             elif p == '*':
                 pass
@@ -598,6 +599,9 @@ class Exec:
 
     def write(s, c, path, val):
         if not path:
+            c.v = val; return
+        if not isinstance(c.v, Agg) and all(isinstance(p, int) for p in path):
+            # MaybeUninit / ManuallyDrop / Unique wrappers around a non-struct payload are transparent
             c.v = val; return
         v = c.v
         for p in path[:-1]:
@@ -639,6 +643,14 @@ class Exec:
     def deref_all(s, v):
         while isinstance(v, Ptr): v = s.load(v)
         return v
+
+    def loop_frame(s):
+        """deepest frame that has been running for more than half of the step budget: the runaway loop's owner"""
+        for k in range(len(s.stack) - 1, -1, -1):
+            if s.stack[k] is not None and s.steps - s.entry_steps[k] > s.max_steps // 2:
+                b, bb, i = s.stack[k]
+                return '%s loop' % b.name
+        return s.where()
 
     def where(s):
         if s.stack:
@@ -742,6 +754,7 @@ class Exec:
         s.stats['bodies'].add(body.name)
         stack = s.stack
         stack.append(None)
+        s.entry_steps.append(s.steps)
         bb = 'bb0'
         try:
             while True:
@@ -765,7 +778,7 @@ class Exec:
                     s.steps += 1
                     stack[-1] = (body, bb, i)
                     if s.steps > s.max_steps:
-                        raise BoundExceeded('more than %d MIR steps' % s.max_steps, s.where())
+                        raise BoundExceeded('more than %d MIR steps' % s.max_steps, s.loop_frame())
                     if op == ASSIGN:
                         v = s.eval_rvalue(fr, st[2])
                         c, p = s.resolve(fr, st[1]); s.write(c, p, v)
@@ -805,7 +818,7 @@ class Exec:
                     raise Unsupported('fallthrough in %s %s' % (body.name, bb))
                 bb = nxt
         finally:
-            stack.pop()
+            stack.pop(); s.entry_steps.pop()
             s.depth -= 1
 
     def do_switch(s, fr, st):
